@@ -102,6 +102,12 @@ impl<T: Qcow2IoOps> Qcow2Dev<T> {
             None
         };
 
+        // The updated slice is written in place below, so the cluster holding
+        // this l2 table must not be new any more. Settle it before locking the
+        // slice, because cache flush takes the new cluster's lock first and
+        // slice locks afterwards.
+        self.settle_new_meta_cluster(l1_e.l2_offset()).await?;
+
         let l2_handle = self.get_l2_slice(&split).await?;
         let mut l2_table = l2_handle.value().write().await;
 
@@ -146,8 +152,6 @@ impl<T: Qcow2IoOps> Qcow2Dev<T> {
         // copy-on-write does: refcounts of everything mapped by this slice,
         // then the slice itself, and only then drop the reference in ram.
         self.flush_refcount().await?;
-        self.settle_new_meta_cluster(l2_table.get_offset().unwrap())
-            .await?;
         self.flush_table(&*l2_table, 0, l2_table.byte_size())
             .await?;
         l2_handle.set_dirty(false);
